@@ -225,6 +225,17 @@ func TestC10Stress(t *testing.T) {
 		}
 		judged++
 		cl := classify(h)
+		_, _, rd := readerDeleteAtomicity(h)
+		rd.labels(cl.labels)
+		if w.Readers > 0 {
+			cl.add("profile:mostly-readers")
+			if rd.pairs > 0 {
+				cl.add("profile:mostly-readers:delete-atomic-for-readers:judged")
+			}
+		}
+		if hasSortedWalk(h) {
+			cl.add("walksorted")
+		}
 		if v.partitioned {
 			partitioned++
 			cl.add("judged-on-subtree-projections")
@@ -426,4 +437,13 @@ func probeD6InChild() (bool, error) {
 		}
 	}
 	return false, nil
+}
+
+func hasSortedWalk(h *History) bool {
+	for i := range h.Ops {
+		if h.Ops[i].Kind == "walk" && h.Ops[i].Sorted {
+			return true
+		}
+	}
+	return false
 }
